@@ -5,9 +5,11 @@ from harness.props import c01, c05
 PROP = "C17"
 MODULES = ["CassisModel.Properties.C17", "CassisModel.Properties.C08"]
 THEOREMS = [
+    "Cassis.Xmi.pass1_strict_all_known",
     "Cassis.Xmi.pass1_strict_unknown_error",
     "Cassis.Xmi.pass1_lenient_eq_filtered",
     "Cassis.Xmi.pass1_known_same",
+    "Cassis.Xmi.pass1_lenient_ids",
     "Cassis.Cas.handles_history",
 ]
 ASSUMPTIONS = [
